@@ -27,10 +27,6 @@ RC = [
  ("np.outer of operands that are not both 1-D (NumPy flattens them): gradient keeps the flattened/transposed layout",
   [("C05", "outer", "rev", "wrong-structure", "both_1d:False"), ("C01", "outer", "rev", "wrong-shape", "both_1d:False"),
    ("C01", "outer", "rev", "wrong-value", "both_1d:False")]),
- ("forward-mode np.sort / np.partition of arrays with more than one dimension: the JVP indexes the tangent with the whole argsort array",
-  [("C02", "sort", "fwd", "wrong-shape", "rank:~[2-9]"), ("C02", "sort", "fwd", "wrong-value", "rank:~[2-9]"),
-   ("C05", "sort", "fwd", "wrong-structure", "rank:~[2-9]"), ("C02", "partition", "fwd", "wrong-shape", "rank:~[2-9]"),
-   ("C02", "partition", "fwd", "wrong-value", "rank:~[2-9]"), ("C05", "partition", "fwd", "wrong-structure", "rank:~[2-9]")]),
 ]
 EXTRA = os.path.join(HERE, "tools", "known_extra.py")
 if os.path.exists(EXTRA):
